@@ -270,6 +270,50 @@ pub fn q_trees(depth: usize) -> Vec<Q> {
     }
 }
 
+/// ANDs with two (or three) negated operands, in every operand order. An
+/// earlier negated operand that matches no live document (the never-indexed
+/// term, or a term whose documents were all removed) must not end the
+/// evaluation before the later ones are subtracted. `full`: every choice of
+/// distinct terms; otherwise four fixed trees over the never-indexed term.
+pub fn multi_not_trees(full: bool) -> Vec<Q> {
+    let n = |i: usize| Q::Not(Box::new(Q::T(i)));
+    let and3 = |pos: usize, i: usize, j: usize, k: usize| {
+        let mut v = vec![n(j), n(k)];
+        v.insert(pos, Q::T(i));
+        Q::And(v)
+    };
+    if !full {
+        // omega (4) is never indexed
+        return vec![
+            and3(0, 0, 4, 1),
+            and3(1, 1, 4, 0),
+            Q::And(vec![n(2), n(4), n(1)]),
+            Q::Or(vec![Q::T(2), and3(2, 0, 4, 1)]),
+        ];
+    }
+    let t = TERMS.len();
+    let mut out = Vec::new();
+    for i in 0..t {
+        for j in 0..t {
+            for k in 0..t {
+                if i == j || i == k || j == k {
+                    continue;
+                }
+                for pos in 0..3 {
+                    out.push(and3(pos, i, j, k));
+                }
+                // all operands negated
+                out.push(Q::And(vec![n(i), n(j), n(k)]));
+                // the same AND one level down
+                let l = (i + 1) % t;
+                out.push(Q::Or(vec![Q::T(l), and3(0, i, j, k)]));
+                out.push(Q::And(vec![and3(1, i, j, k), Q::T(l)]));
+            }
+        }
+    }
+    out
+}
+
 /// The boolean shapes used in the per-step light battery.
 pub fn light_trees() -> Vec<Q> {
     let n = |q: Q| Q::Not(Box::new(q));
@@ -362,6 +406,17 @@ type Idx = BM25Index<TokenizerChain>;
 fn adv(idx: &Idx, qs: &str, k: usize, p: &Option<BM25Params>) -> Result<Vec<(u64, f32)>, Fail> {
     idx.try_search_advanced(qs, k, p.clone())
         .map_err(|e| Fail::new("advanced:error", format!("query {qs:?} k={k}: {e:?}")))
+}
+
+/// One boolean tree, one call: id set, score sanity, order.
+fn check_tree_once(idx: &Idx, m: &TfsModel, q: &Q, evals: &mut u64) -> Result<(), Fail> {
+    let qs = q.render();
+    let want = q.eval(m);
+    let mut ts = BTreeSet::new();
+    q.terms(&mut ts);
+    let full = adv(idx, &qs, BIG_K, &None)?;
+    *evals += 1;
+    check_list(&format!("advanced:{}", q.shape()), &qs, &full, &want, BIG_K, m, &ts)
 }
 
 /// One boolean tree: full list vs the model, repeat, every k.
@@ -595,7 +650,7 @@ impl Sut for Tfs {
         let _ = idx.compact_buckets();
     }
 
-    fn flush(idx: &Idx, now: u64, fail_at: Option<usize>) -> FlushOut {
+    fn flush(idx: &Idx, now: u64, fail_at: Option<usize>, hook: Option<(usize, &dyn Fn())>) -> FlushOut {
         let puts: RefCell<Vec<JEntry>> = RefCell::new(Vec::new());
         let count = Cell::new(0usize);
         let res = block_on(idx.flush_with(
@@ -603,6 +658,11 @@ impl Sut for Tfs {
             |data: Vec<u8>| {
                 let k = count.get();
                 count.set(k + 1);
+                if let Some((at, f)) = hook
+                    && at == k
+                {
+                    f();
+                }
                 let r: Result<(), anda_db_tfs::BoxError> = if Some(k) == fail_at {
                     Err("injected metadata write error".into())
                 } else {
@@ -614,6 +674,11 @@ impl Sut for Tfs {
             |obj: BucketObject, data: Vec<u8>| {
                 let k = count.get();
                 count.set(k + 1);
+                if let Some((at, f)) = hook
+                    && at == k
+                {
+                    f();
+                }
                 let r: Result<(), anda_db_tfs::BoxError> = if Some(k) == fail_at {
                     Err("injected bucket write error".into())
                 } else {
@@ -683,14 +748,8 @@ impl Sut for Tfs {
         }
         check_search(idx, m, &[1, 2, 3], false, false, evals)?;
         // a handful of boolean shapes (the complete tree batteries are in the deep battery)
-        for q in light_trees() {
-            let qs = q.render();
-            let want = q.eval(m);
-            let mut ts = BTreeSet::new();
-            q.terms(&mut ts);
-            let full = adv(idx, &qs, BIG_K, &None)?;
-            *evals += 1;
-            check_list(&format!("advanced:{}", q.shape()), &qs, &full, &want, BIG_K, m, &ts)?;
+        for q in light_trees().into_iter().chain(multi_not_trees(false)) {
+            check_tree_once(idx, m, &q, evals)?;
         }
         Ok(())
     }
@@ -710,6 +769,10 @@ impl Sut for Tfs {
         // every depth<=2 tree, default parameters, repeat + every k
         for q in &t2 {
             check_tree(idx, m, q, "default", &None, true, evals)?;
+        }
+        // ANDs with several negated operands in every operand order (set + order, one call each)
+        for q in multi_not_trees(true) {
+            check_tree_once(idx, m, &q, evals)?;
         }
         // parameter sets: quick = terms + the light shapes; thorough = every depth<=2 tree
         let under_params: Vec<Q> = if depth >= 3 {
